@@ -84,6 +84,22 @@ Theorem replicas_converge :
 Proof. intros bnd Hb image pm pu Hrt. exact (Proofs.replicas_converge bnd Hb image pm pu Hrt). Qed.
 Print Assumptions replicas_converge.
 
+(* crash + restart stays inside RaftLog: a replica whose snapshot file holds the image of a
+   RaftLog state at k and whose log holds the committed entries k+1..k+m recovers (Restore,
+   then replay) to a RaftLog state at k+m *)
+Theorem recover_in_raftlog :
+  forall (image : Type) (pm : pdata -> image) (pu : image -> option pdata),
+    (forall p, pu (pm p) = Some p) ->
+  forall auto log orc (r : replica image) k m,
+    match r_snap image r with
+    | None => k = 0%nat
+    | Some (k', img) => k' = k /\ exists dat d, replica_at image pm pu auto log k d /\ stamps_ok dat /\ img = persist image pm dat d
+    end ->
+    r_suffix image r = firstn m (skipn k log) -> List.length (r_suffix image r) = m ->
+    exists d', recover image pu auto orc r = Some d' /\ replica_at image pm pu auto log (k + m) d'.
+Proof. intros image pm pu Hrt. exact (Proofs.recover_in_raftlog image pm pu Hrt). Qed.
+Print Assumptions recover_in_raftlog.
+
 (* ... and it is the metadata of the straight run of that prefix *)
 Theorem replica_is_straight_run :
   forall bnd, bnd_ok bnd ->
